@@ -6,6 +6,7 @@ import warnings
 import numpy as np
 
 from harness.proj import to_rat, rat_close, relayout
+from checks import binding
 from harness.core import Machinery
 
 LEVEL = "model_checking"
@@ -238,9 +239,10 @@ def code_to_spec(ctx, metrics, cstat, ncases):
     with open(path, "w") as f:
         for r in recs:
             f.write(json.dumps(r) + "\n")
-    res = ctx.tlc("EnsRankTrace", "MC_EnsRankTrace.cfg", workers=1, timeout=3000, heap="6g", env={"TRACE_FILE": str(path)})
+    res = ctx.tlc("EnsRankTrace", "MC_EnsRankTrace.cfg", timeout=3000, heap="6g", env={"TRACE_FILE": str(path)})
     if not res.tuples("VALIDATED"):
         raise Machinery("EnsRankTrace did not complete:\n" + res.out[-2500:])
+    ctx.binding_demo("EnsRankTrace", "MC_EnsRankTrace.cfg", path, binding.ensrank, timeout=3000, heap="6g")
     for line in res.tuples("REJECT"):
         parts = line.strip("<>").split(",")
         r = recs[int(parts[1]) - 1]
